@@ -102,7 +102,7 @@ type Sess struct {
 	kept       *keptDump
 	stale      []ecs.CachedFilter // handles of filters that were unregistered
 	replica    map[ecs.Entity]*replicaEnt
-	resMappers map[string]resAcc // long-lived generic.Resource mappers (C20)
+	resMappers map[string][]resAcc // long-lived generic.Resource mappers (C20)
 	Res        *ResModel
 	ResIDs     []ecs.ResID
 	ResKeys    []string
